@@ -65,11 +65,16 @@ class Path:
         return f"<Path {len(self.events)} events, exit={self.exit}>"
 
 
-def paths(events, unroll=2, exc=False, limit=20000):
+EXTRA_UNROLL = 0     # thorough tier: re-analyse with deeper loop unrolling as a cross-check
+
+
+def paths(events, unroll=2, exc=False, limit=200000, _top=True):
     """Expand an effect tree into feasible paths. Each path: guard literals + leaf events in
     order; `exit` in {None (falls through), 'return', 'raise', 'exc'}. Loops are unrolled
     0..unroll times. With exc=True a try body additionally contributes, for every leaf event in
     it, the path on which that event raises into each handler."""
+    if _top:
+        unroll = unroll + EXTRA_UNROLL
     out = [Path()]
     for ev in events:
         alts = _alts(ev, unroll, exc, limit)
@@ -90,12 +95,12 @@ def paths(events, unroll=2, exc=False, limit=20000):
 
 def _alts(ev, unroll, exc, limit):
     if isinstance(ev, ir.If):
-        a = [Path((ev.cond,)).extend(p.guards, p.events, p.exit) for p in paths(ev.then, unroll, exc, limit)]
+        a = [Path((ev.cond,)).extend(p.guards, p.events, p.exit) for p in paths(ev.then, unroll, exc, limit, False)]
         b = [Path((ir.negate(ev.cond),)).extend(p.guards, p.events, p.exit)
-             for p in paths(ev.orelse, unroll, exc, limit)]
+             for p in paths(ev.orelse, unroll, exc, limit, False)]
         return [p for p in a + b if p.feasible()]
     if isinstance(ev, ir.Loop):
-        body = paths(ev.body, unroll, exc, limit)
+        body = paths(ev.body, unroll, exc, limit, False)
         alts = [Path()]
         for n in range(1, unroll + 1):
             for combo in itertools.product(body, repeat=n):
@@ -115,14 +120,14 @@ def _alts(ev, unroll, exc, limit):
         return alts
     if isinstance(ev, ir.Inlined):
         res = []
-        for p in paths(ev.body, unroll, exc, limit):
+        for p in paths(ev.body, unroll, exc, limit, False):
             # a return of the callee ends the callee, not the caller
             res.append(Path(p.guards, p.events, None if p.exit == "return" else p.exit))
         return res
     if isinstance(ev, ir.With):
-        return paths(ev.body, unroll, exc, limit)
+        return paths(ev.body, unroll, exc, limit, False)
     if isinstance(ev, ir.Try):
-        body = paths(ev.body, unroll, exc, limit)
+        body = paths(ev.body, unroll, exc, limit, False)
         alts = list(body)
         if exc:
             seen = set()
@@ -133,7 +138,7 @@ def _alts(ev, unroll, exc, limit):
                         continue
                     seen.add(key)
                     for h in ev.handlers:
-                        for hp in paths(h.body, unroll, exc, limit):
+                        for hp in paths(h.body, unroll, exc, limit, False):
                             alts.append(Path(bp.guards, bp.events[:i] + (Raised(e, getattr(e, "line", 0)),), None)
                                         .extend((("handler", h.exc),) + hp.guards, hp.events, hp.exit))
         return alts
@@ -158,3 +163,61 @@ def strip_gates(t):
     if isinstance(t, tuple) and t and t[0] == "gate":
         return strip_gates(t[2]) + strip_gates(t[3])
     return [t]
+
+
+def order_dataflow(events, classify):
+    """Forward may-analysis over the effect tree for the ORDER rule: which 'commit' events may have
+    happened when a 'fallible' event is reached?  Loops are iterated to a fixpoint (finite powerset
+    domain), so the result covers every number of iterations.  Returns [(commit event, fallible event)]."""
+    found = {}
+    frames = []          # states at `return` statements of inlined callees (they continue in the caller)
+
+    def join(a, b):
+        return b if a is None else (a if b is None else a | b)
+
+    def scan(evs, state):
+        # state: frozenset of commit events that may have happened; None = unreachable
+        for ev in evs:
+            if state is None:
+                return None
+            if isinstance(ev, ir.If):
+                state = join(scan(ev.then, state), scan(ev.orelse, state))
+            elif isinstance(ev, ir.Loop):
+                cur = state
+                for _ in range(64):
+                    nxt = join(cur, scan(ev.body, cur))
+                    if nxt == cur:
+                        break
+                    cur = nxt
+                state = cur
+            elif isinstance(ev, ir.Inlined):
+                frames.append([])
+                out = scan(ev.body, state)
+                for st in frames.pop():
+                    out = join(out, st)
+                state = out
+            elif isinstance(ev, ir.With):
+                state = scan(ev.body, state)
+            elif isinstance(ev, ir.Try):
+                out = scan(ev.body, state)
+                mid = join(state, out) | frozenset(e for e, _ in walk(ev.body) if classify(e) == "commit")
+                for h in ev.handlers:
+                    out = join(out, scan(h.body, mid))
+                state = out
+            elif isinstance(ev, ir.Return):
+                if frames:
+                    frames[-1].append(state)
+                return None
+            elif isinstance(ev, (ir.Raise, ir.Jump)):
+                return None
+            else:
+                k = classify(ev)
+                if k == "fallible":
+                    for c in state:
+                        found.setdefault((id(c), id(ev)), (c, ev))
+                elif k == "commit":
+                    state = state | frozenset([ev])
+        return state
+
+    scan(events, frozenset())
+    return list(found.values())
